@@ -318,7 +318,7 @@ func (handler *Handler) ProxyClientConnection(ctx context.Context, errCh chan<- 
 						"from database")
 					handler.logger.Debugln("Send error to db")
 
-					if err := handler.sendClientError(QueryExecutionWasInterrupted, packet); err != nil {
+					if err := handler.answerClientPacketWithError(QueryExecutionWasInterrupted, packet); err != nil {
 						handler.logger.WithError(err).WithField(logging.FieldKeyEventCode, logging.EventCodeErrorResponseConnectorCantWriteToClient).
 							Debugln("Can't write response with error to client")
 					}
@@ -436,7 +436,7 @@ func (handler *Handler) ProxyClientConnection(ctx context.Context, errCh chan<- 
 			if err := handler.acracensor.HandleQuery(query); err != nil {
 				censorSpan.End()
 				clientLog.WithError(err).WithField(logging.FieldKeyEventCode, logging.EventCodeErrorCensorQueryIsNotAllowed).Errorln("Error on AcraCensor check")
-				if err := handler.sendClientError(QueryExecutionWasInterrupted, packet); err != nil {
+				if err := handler.answerClientPacketWithError(QueryExecutionWasInterrupted, packet); err != nil {
 					handler.logger.WithError(err).WithField(logging.FieldKeyEventCode, logging.EventCodeErrorResponseConnectorCantWriteToClient).
 						Errorln("Can't write response with error to client")
 				}
@@ -1159,6 +1159,16 @@ func (handler *Handler) sendClientError(msg string, packet *Packet) error {
 	packet.SetData(errPacket)
 	_, err := handler.clientConnection.Write(packet.Dump())
 	return err
+}
+
+// answerClientPacketWithError answers a packet of the client with an `QueryInterruptedError` instead of forwarding it.
+// The answer continues the sequence of the exchange: its sequence id is the one after the client's last packet,
+// otherwise the client takes it for out of order and drops the connection.
+func (handler *Handler) answerClientPacketWithError(msg string, packet *Packet) error {
+	// a payload of MaxPayloadLen bytes or more arrived as several packets with consecutive sequence ids
+	packets := len(packet.data)/MaxPayloadLen + 1
+	packet.header[SequenceIDIndex] += byte(packets)
+	return handler.sendClientError(msg, packet)
 }
 
 // AddClientIDObserver subscribe new observer for clientID changes
